@@ -498,6 +498,27 @@ theorem mem_collect_iff_reach (n : Net α) (root : Nat)
       · exact h0.symm
       · unfold Edge at hc1; rw [hnone] at hc1; cases hc1
 
+/-- closure of the collected set under child edges (in-range child indices) -/
+theorem collect_closed (n : Net α) (root : Nat)
+    (h : ∀ (i : Nat) (x : NNode α), n[i]? = some x → ∀ c ∈ x.ch, c < n.length)
+    (p c : Nat) (hp : p ∈ collect n root) (hc : c ∈ chOf n p) : c ∈ collect n root :=
+  (mem_collect_iff_reach n root h c).2
+    (Relation.ReflTransGen.tail ((mem_collect_iff_reach n root h p).1 hp) hc)
+
+/-- every collected node other than the root has a collected parent (in-range child indices) -/
+theorem collect_parent (n : Net α) (root : Nat)
+    (h : ∀ (i : Nat) (x : NNode α), n[i]? = some x → ∀ c ∈ x.ch, c < n.length)
+    (i : Nat) (hi : i ∈ collect n root) (hne : i ≠ root) :
+    ∃ p ∈ collect n root, i ∈ chOf n p := by
+  rcases Relation.ReflTransGen.cases_tail ((mem_collect_iff_reach n root h i).1 hi) with h0 | ⟨p, hp, hpi⟩
+  · exact absurd h0 hne
+  · exact ⟨p, (mem_collect_iff_reach n root h p).2 hp, hpi⟩
+
+/-- a children-first table has in-range child indices -/
+theorem inRange_of_wellOrdered (n : Net α) (hw : WellOrdered n) :
+    ∀ (i : Nat) (x : NNode α), n[i]? = some x → ∀ c ∈ x.ch, c < n.length :=
+  fun i x hx c hc => lt_trans (hw i x hx c hc) (List.getElem?_eq_some_iff.1 hx).1
+
 /-! ### `check_spn` -/
 
 theorem checkSpn_accept_iff_flags (n : Net α) (root : Nat) (l s d : Bool) :
